@@ -510,6 +510,68 @@ pub fn run(c: &mut Ctx) {
         t!(c, "Parsed::to_datetime", &p, p.to_datetime());
         t!(c, "Parsed::to_datetime_with_timezone", &p, p.to_datetime_with_timezone(&Utc));
     }
+    // ---- text: a multi-byte character at every byte offset of every kind of token (seed R4-C15-b: the long
+    // month name scanner sliced the text at the length of the expected suffix; a character straddling that offset
+    // after a valid three-letter prefix is a slice off a char boundary) ---------------------------------------
+    {
+        let tokens: &[(&str, &str)] = &[
+            ("%B", "September"), ("%B", "January"), ("%B", "May"), ("%B", "june"), ("%B", "MARCH"), ("%b", "Sep"), ("%h", "Oct"),
+            ("%A", "Wednesday"), ("%A", "Saturday"), ("%A", "sun"), ("%a", "Wed"), ("%p", "AM"), ("%P", "pm"),
+            ("%Y", "2020"), ("%Y", "+12345"), ("%C%y", "2024"), ("%G-W%V-%u", "2020-W53-7"), ("%j", "189"), ("%U %w", "27 0"),
+            ("%z", "+0530"), ("%:z", "+05:30"), ("%::z", "+05:30:00"), ("%#z", "+05"), ("%z", "\u{2212}0530"), ("%Z", "UTC"),
+            ("%.f", ".123456789"), ("%.3f", ".123"), ("%3f", "123"), ("%f", "000026490"), ("%s", "-994518299"),
+            ("%+", "2001-07-08T00:34:60.026490+09:30"), ("%c", "Sun Jul  8 00:34:60 2001"), ("%r", "12:34:60 AM"),
+            ("%D", "07/08/01"), ("%F %T", "2001-07-08 00:34:60"), ("%v", " 8-Jul-2001"), ("%e %k %l", " 8  0 12"),
+            ("%d\u{e9}%m", "08\u{e9}07"), ("%d\u{3000}%m", "08\u{3000}07"), ("%d%n%m%t%Y", "08 07\t2001"), ("%%%d", "%08"),
+        ];
+        let mbs = ["\u{e9}", "\u{2212}", "\u{20ac}", "\u{3000}", "\u{1f60a}", "\u{a0}", "\u{0}"];
+        for (fmt, full) in tokens {
+            for cut in 0..=full.len() {
+                if !full.is_char_boundary(cut) {
+                    continue;
+                }
+                for mb in mbs {
+                    for keep_rest in [true, false] {
+                        let text = format!("{}{}{}", &full[..cut], mb, if keep_rest { &full[cut..] } else { "" });
+                        let text = &text;
+                        c.count("text:multibyte-at-every-offset");
+                        t!(c, "DateTime::parse_from_str", (text, fmt), DateTime::parse_from_str(text, fmt).is_ok());
+                        t!(c, "DateTime::parse_and_remainder", (text, fmt), DateTime::parse_and_remainder(text, fmt).is_ok());
+                        t!(c, "NaiveDate::parse_from_str", (text, fmt), NaiveDate::parse_from_str(text, fmt).is_ok());
+                        t!(c, "NaiveDate::parse_and_remainder", (text, fmt), NaiveDate::parse_and_remainder(text, fmt).is_ok());
+                        t!(c, "NaiveTime::parse_from_str", (text, fmt), NaiveTime::parse_from_str(text, fmt).is_ok());
+                        t!(c, "NaiveTime::parse_and_remainder", (text, fmt), NaiveTime::parse_and_remainder(text, fmt).is_ok());
+                        t!(c, "NaiveDateTime::parse_from_str", (text, fmt), NaiveDateTime::parse_from_str(text, fmt).is_ok());
+                        t!(c, "NaiveDateTime::parse_and_remainder", (text, fmt), NaiveDateTime::parse_and_remainder(text, fmt).is_ok());
+                        t!(c, "Weekday::from_str", text, text.parse::<Weekday>().is_ok());
+                        t!(c, "Month::from_str", text, text.parse::<Month>().is_ok());
+                        t!(c, "DateTime::parse_from_rfc3339", text, DateTime::parse_from_rfc3339(text).is_ok());
+                        t!(c, "DateTime::parse_from_rfc2822", text, DateTime::parse_from_rfc2822(text).is_ok());
+                        t!(c, "DateTime<FixedOffset>::from_str", text, text.parse::<DateTime<FixedOffset>>().is_ok());
+                        t!(c, "NaiveDateTime::from_str", text, text.parse::<NaiveDateTime>().is_ok());
+                        t!(c, "FixedOffset::from_str", text, text.parse::<FixedOffset>().is_ok());
+                    }
+                }
+            }
+        }
+        // the two RFC forms and the default text forms, a multi-byte character at every offset
+        for full in ["Tue, 1 Jul 2003 10:52:37 +0200", "1 Jul 03 10:52 GMT (comment (nested) \\) x)", "2024-02-29T23:59:60.5+05:30", "2024-02-29 23:59:60.5 UTC", "23:59:60.5", "+12345-02-03"] {
+            for cut in 0..=full.len() {
+                for mb in mbs {
+                    let text = format!("{}{}{}", &full[..cut], mb, &full[cut..]);
+                    let text = &text;
+                    c.count("text:multibyte-at-every-offset");
+                    t!(c, "DateTime::parse_from_rfc3339", text, DateTime::parse_from_rfc3339(text).is_ok());
+                    t!(c, "DateTime::parse_from_rfc2822", text, DateTime::parse_from_rfc2822(text).is_ok());
+                    t!(c, "DateTime<FixedOffset>::from_str", text, text.parse::<DateTime<FixedOffset>>().is_ok());
+                    t!(c, "DateTime<Utc>::from_str", text, text.parse::<DateTime<Utc>>().is_ok());
+                    t!(c, "NaiveDate::from_str", text, text.parse::<NaiveDate>().is_ok());
+                    t!(c, "NaiveTime::from_str", text, text.parse::<NaiveTime>().is_ok());
+                    t!(c, "NaiveDateTime::from_str", text, text.parse::<NaiveDateTime>().is_ok());
+                }
+            }
+        }
+    }
     // ---- text: every parser entry point on arbitrary Unicode, format strings incl. truncated ---
     let alphabet: Vec<char> = "0123456789 -+:.TZtz/,()\\%aAbBcCdDeFgGhHIjklmMnpPqrRsStTuUvVwWxXyYz#_é\u{2212}\u{3000}\u{a0}\u{1f60a}\u{0}JanMonPMUTCGMT".chars().collect();
     let seeds = [
